@@ -13,7 +13,10 @@ THEOREMS = [
     'AbacusVerif.Cumsum.cumsum_output',
     'AbacusVerif.Cumsum.cumsum_matches_numpy',
     'AbacusVerif.Cumsum.cumsum_inbounds',
+    'AbacusVerif.Cumsum.psum_append',
+    'AbacusVerif.Cumsum.cumsum_chain',      # A then B through the RETURNED total = partial sums of A ++ B (the reader's A -> B chaining)
 ]
+LEAN_MODULES = ['AbacusVerif.Props.C19', 'AbacusVerif.Props.C19Chain']
 DRIVER = 'drv_c19'
 RULE = ('exhaustive small scope: every input length N in 0..Nmax x initial/final x output length in '
         'expected-1..expected+1 x offsets x dtype pairings (int64->int64, uint32->uint64 with wrap-around, '
@@ -234,8 +237,47 @@ def run(ctx):
     outs = ctx.driver.query([model_line(c) for c in cases])
     for c, mres in zip(cases, outs):
         check_case(ctx, c, mres, cumsum, pure(cumsum))
+    check_chain(ctx, cumsum)
     ctx.exhaustive = True
     ctx.extra['scope'] = 'N in 0..%d, all flag pairs, outLen in expected-1..expected+1' % ctx.pick(8, 16)
+
+
+def check_chain(ctx, cumsum):
+    """the real routine, chained through its RETURN value as the catalogue reader does (A, then B from A's total):
+    every stored element and the final total must be the partial sums of the concatenated array (cumsum_chain)"""
+    import itertools
+    import numpy as np
+    rng = np.random.default_rng([ctx.seed, 19])
+    for NA, NB in itertools.product(range(0, ctx.pick(4, 7)), repeat=2):
+        for iA, fA, iB, fB in itertools.product((0, 1), repeat=4):
+            for dt, off in ((np.uint32, 0), (np.uint32, 2 ** 32 - 2), (np.int64, -3)):
+                a = rng.integers(0, 6, NA).astype(dt)
+                b = rng.integers(0, 6, NB).astype(dt)
+                nA, nB = NA - 1 + iA + fA, NB - 1 + iB + fB
+                if nA < 0 or nB < 0:
+                    continue
+                odt = np.uint64 if dt is np.uint32 else np.int64
+                oA, oB = np.full(nA, 77, dtype=odt), np.full(nB, 77, dtype=odt)
+                case = dict(kind='chain', a=[int(v) for v in a], b=[int(v) for v in b], iA=iA, fA=fA, iB=iB, fB=fB, off=int(off), dt=np.dtype(dt).name)
+                ctx.case(case, nontrivial=NA + NB > 0)
+                ctx.count('chain')
+                try:
+                    tA = cumsum(a, oA, initial=bool(iA), final=bool(fA), offset=off)
+                    tB = cumsum(b, oB, initial=bool(iB), final=bool(fB), offset=tA)
+                except Exception as e:   # noqa: BLE001
+                    ctx.fail('chained cumsum raised', case, '%s: %s' % (type(e).__name__, str(e)[:200]), 'partial sums of a ++ b', key='cumsum:chain')
+                    continue
+                ps = [int(off)]
+                for v in list(a) + list(b):
+                    ps.append(ps[-1] + int(v))
+                selA = ps[:NA + 1][(0 if iA else 1):(NA + 1 if fA else NA)]
+                selB = ps[NA:][(0 if iB else 1):(NB + 1 if fB else NB)]
+                got = ([int(v) for v in oA], [int(v) for v in oB], int(tA), int(tB))
+                exp = (selA, selB, ps[NA], ps[-1])
+                if got != exp:
+                    ctx.fail('chained cumsum (B started from the total A returned) is not the cumulative sum of a ++ b', case,
+                             dict(outA=got[0], outB=got[1], totalA=got[2], totalB=got[3]), dict(outA=exp[0], outB=exp[1], totalA=exp[2], totalB=exp[3]),
+                             key='cumsum:chain')
 
 
 def ctx_corpus():
@@ -261,8 +303,6 @@ def intensify(ctx):
         exp = N - 1 + ini + fin
         outLen = max(0, exp + int(rng.choice([0, 0, 0, -1, 1])))
         vals = [int(v) for v in (rng.integers(-9, 10, N) if kind != 'u32u64' else rng.choice([0, 1, 2 ** 32 - 1], N))]
-        if kind == 'f64':
-            off = int(off)
         off = [0, 5][int(rng.integers(0, 2))] if kind != 'u32u64' else [0, 2 ** 63, 2 ** 64 - 3][int(rng.integers(0, 3))]
         cases.append(dict(kind=kind, N=N, ini=ini, fin=fin, outLen=outLen, off=off, vals=vals))
     outs = ctx.driver.query([model_line(c) for c in cases]) if not ctx.driver.error else ['err oob'] * len(cases)
@@ -273,6 +313,9 @@ def intensify(ctx):
 def replay(ctx, doc):
     from abacusnbody.util import cumsum
     c = doc['failure']['case'] if 'failure' in doc else doc
+    if c.get('kind') == 'chain':
+        check_chain(ctx, cumsum)
+        return
     mres = ctx.driver.query([model_line(c)])[0]
     print('model:', mres)
     check_case(ctx, c, mres, cumsum, pure(cumsum))
